@@ -40,7 +40,8 @@ def truth(p):
                     acc_keeps.add(g["data_path"])
                 elif s["fn"] not in seen:
                     first_level(s["fn"], seen | {s["fn"]}, True, acc_keeps, acc_loads)
-            elif s["k"] == "method":
+            elif s["k"] in ("method", "clsattr"):
+                # (a class that is merely referred to by name is analysed like a call of the class: static reach)
                 c = p["classes"][s["cls"]]
                 if c.get("calls"):
                     g = p["fns"][c["calls"]]
@@ -94,8 +95,8 @@ def truth(p):
                     ks, ls = set(), set()
                     first_level(s["fn"], {s["fn"]}, True, ks, ls)
                     hs |= ks
-            elif s["k"] == "method":
-                # Cls(arg).method(): the constructor takes an argument, so the call is context dependent for dds
+            elif s["k"] in ("method", "clsattr"):
+                # Cls(arg).method() / Cls.LEVEL: the constructor takes an argument, so the call is context dependent for dds
                 takes_args = True
                 c = p["classes"][s["cls"]]
                 if c.get("calls"):
@@ -313,6 +314,22 @@ def programs(tier, seed):
             q["fns"][f_]["alias"] = True
         q["entry"] = main
         q["name"] = "kept-through-same-module-alias/%s" % which
+        ps.append(q)
+    # one body calls a function directly and also keeps it (in both orders); the function keeps a node itself
+    for order in ("call-then-keep", "keep-then-call"):
+        q = gen.new_program("g%d" % k)
+        k += 1
+        m = gen.add_module(q, "gm")
+        raw = gen.add_fn(q, m, "raw", data_path="/ck/raw", const=1)
+        clean = gen.add_fn(q, m, "clean", const=2)
+        q["fns"][clean]["stmts"] = [gen.s_call(raw, [])]
+        stage = gen.add_fn(q, m, "stage", const=3)
+        st = [gen.s_call(clean, []), gen.s_keep("/ck/clean", clean, [])]
+        q["fns"][stage]["stmts"] = st if order == "call-then-keep" else st[::-1]
+        main = gen.add_fn(q, m, "gmain", const=9)
+        q["fns"][main]["stmts"] = [gen.s_keep("/ck/stage", stage, [])]
+        q["entry"] = main
+        q["name"] = "called-and-kept-in-one-body/%s" % order
         ps.append(q)
     # the same function kept under two paths
     q = gen.new_program("g%d" % k)
